@@ -15,6 +15,14 @@ A case is JSON:
         | ["spawn", j]   create child Python task j *here* (possibly inside timed blocks); the child sleeps
                          `pre` ticks and then runs its own block tree with its own timeouts
         | ["join", j]    await child j (un-shielded) if it was spawned
+        | ["sc", k]      `sleep(k)` that swallows a plain cancellation (`except CancelledError: pass`, interrupts
+                         re-raised) and goes on — only used together with "storm"
+   "storm": n   (optional, 1..3) environment *cancel storm*: the main task is cancelled when the first timer of one of
+                its levels has fired and again after each step in which it swallowed a cancel, n times in all, so that
+                the interruptor's task_interrupt is refused n times in a row ("cannot interrupt a cancelled task");
+                n = 3 drives the interruptor into its give-up path (third RuntimeError -> loop exception handler).
+                Outside the property's domain (environment cancels, a body that swallows them): used to tie the
+                retry loop to the model and to check the handler context.
 Every task's timeout levels are its own: a child spawned inside its creator's timed block inherits the
 creator's contextvars, and nothing else.
 """
@@ -77,6 +85,11 @@ class Runner:
         self.tids = {}                     # task object -> tid
         self.children = {}                 # j -> task
         self.after = {}                    # tid -> its outermost block has exited
+        self.storm_left = case.get("storm", 0)
+        self.storm_on = False
+        self.in_sc = False
+        self.swallowed_now = False
+        self.contexts = []                 # raw contexts given to the loop exception handler
         self.trace = []                    # model events
         self.low = []
         self.bad = []
@@ -135,6 +148,19 @@ class Runner:
             await asyncio.sleep(0)
         elif kind == "s":
             await asyncio.sleep(item[1])
+        elif kind == "sc":
+            self.in_sc = True
+            try:
+                await asyncio.sleep(item[1])
+            except asyncio.CancelledError as e:
+                if isinstance(e, self.I.InterruptException):
+                    raise
+                self.keep.append(e)
+                self.swallowed_now = True
+                self.lg("swallowed", path, self.now())
+                self.tags.add("cancel-swallowed-in-block")
+            finally:
+                self.in_sc = False
         elif kind == "aw":
             r = await self.aux[item[1]]
             if r != ("aux", item[1]):
@@ -270,10 +296,13 @@ class Runner:
                 orig_throw(task, exc)
             except RuntimeError:
                 run.low.append(("throw", L, False))
+                if L is not None:
+                    run.levels[L]["refusals"] = run.levels[L].get("refusals", 0) + 1
                 raise
             if L is not None:
                 run.exc_level[id(exc)] = L
                 run.keep.append(exc)
+
             run.low.append(("throw", L, True))
             if run.after.get(run.tids.get(task, 0)):
                 run.fail("interrupt-after-exit", f"task_throw performed at t={run.now()} on task "
@@ -357,6 +386,15 @@ class Runner:
                 if self.main_task.cancel():
                     self.tags.add("env-cancel")
         self.tick_handles[self.now()] = self.tick_handles.get(self.now(), 0) + 1
+        # cancel storm: first cancel when a timer of the main task has fired, then one after every swallow
+        if self.storm_left > 0 and not self.main_task.done() and not self.after_block:
+            fired_now = any(ln.split()[2] == "fire" and ln.split()[1] == "0" for ln in out if ln.startswith("ev "))
+            if (fired_now and not self.storm_on) or (self.storm_on and self.swallowed_now):
+                if self.in_sc and self.main_task.cancel():
+                    self.storm_on = True
+                    self.storm_left -= 1
+                    self.tags.add("env-cancel")
+        self.swallowed_now = False
         if out:
             self.trace.extend(out)
             for t in sorted(touched):
@@ -417,8 +455,12 @@ class Runner:
     def run(self):
         case = self.case
         self.loop = loop = loop_class(case["loop"])()
-        loop.set_exception_handler(lambda lp, ctx: self.loop_errors.append(
-            type(ctx.get("exception")).__name__ + ":" + str(ctx.get("message"))))
+        def on_error(ctx):
+            # installed as the loop's `call_exception_handler` itself, so that every report is seen whatever
+            # asyncio's dispatch to custom handlers does with it (3.12 runs them inside context["task"]'s context)
+            self.contexts.append(dict(ctx))
+            self.loop_errors.append(type(ctx.get("exception")).__name__ + ":" + str(ctx.get("message")))
+        loop.call_exception_handler = on_error
         import random as _r
         saved_random = self.P.random.random
         self.P.random.random = lambda: 0.5
@@ -455,8 +497,18 @@ class Runner:
         return self
 
     def final_checks(self):
-        for m in self.loop_errors:
-            self.fail("loop-exception-handler", m)
+        # No exception may escape the loop.  The one admissible report is the interruptor's own give-up
+        # report after three refusals (environment cancel storm); whether and how that report reaches an
+        # application's handler is outside C16 (see notes/C16.md) and is only recorded, not judged.
+        gave_up = {id(info.get("itask")): L for L, info in self.levels.items() if info.get("refusals", 0) >= 3}
+        for L in gave_up.values():
+            self.tags.add("third-refusal-give-up")
+        for c in self.contexts:
+            if id(c.get("task")) in gave_up and str(c.get("message", "")).startswith("timeout interruptor failed"):
+                self.tags.add("give-up-reported")
+                continue
+            self.fail("loop-exception-handler",
+                      type(c.get("exception")).__name__ + ":" + str(c.get("message")))
         for j, t in enumerate(self.aux):
             if "env-cancel" in self.tags:
                 break
@@ -478,7 +530,7 @@ def max_time(case):
     def tot(blk):
         s = 0
         for it in blk["body"]:
-            if it[0] == "s":
+            if it[0] in ("s", "sc"):
                 s += it[1]
             elif it[0] == "blk":
                 s += tot(it[1])
@@ -506,6 +558,12 @@ def judge(r: Runner):
                 r.fail("none-interferes", f"level {L} (None) turned {type(seen).__name__} into {out}")
             continue
         D = max(t_in + d, t_in)
+        if info.get("refusals", 0) >= 3 and t_out > D:
+            # Every attempt to interrupt at the deadline was legitimately refused (the target had a pending
+            # cancellation each time — C15's contract; environment cancel storm, body swallowing the cancels):
+            # outside what C16 states; the block's late end is not judged.
+            r.tags.add("deadline-missed-after-three-refusals")
+            continue
         if t_out > D:
             r.fail("outlived-deadline",
                    f"level {L}: entered t={t_in}, deadline t={t_in + d}, still inside at t={t_out} (left with {out})")
@@ -536,7 +594,8 @@ def judge(r: Runner):
     # an interrupted op is the one in progress: an unfinished op is directly followed by the exception
     for tid, log in r.logs.items():
         for a, b in zip(log, log[1:]):
-            if a[0] == "op_start" and not (b[0] == "op_end" and b[1] == a[1]) and b[0] not in ("body_exc", "prog"):
+            if a[0] == "op_start" and not (b[0] == "op_end" and b[1] == a[1]) and b[0] not in (
+                    "body_exc", "prog", "swallowed"):
                 r.fail("interrupt-not-at-suspension-point", f"task {tid}: op {a} was followed by {b}")
     # ties
     for L, info in r.levels.items():
@@ -565,4 +624,4 @@ def judge(r: Runner):
 def canon_log(r):
     """all tasks' logs without block markers (used to compare with reference runs)"""
     return [(tid,) + tuple(rec) for tid in sorted(r.logs) for rec in r.logs[tid]
-            if rec[0] in ("op_start", "op_end", "prog", "tail")]
+            if rec[0] in ("op_start", "op_end", "prog", "tail", "swallowed")]
